@@ -9,6 +9,8 @@ Python's `ast` and emitted as coq/theories/Gen/C03Consts.v.  Fail-closed: unknow
     not "success"; compute_next_steps applies `hide_prev_turn`; whether compute_context (what
     `_process_start_action` compares action results against) applies it too;
   * colang/v2_x/runtime/runtime.py - `status == "failed"` => ActionResult whose return value is None;
+  * colang/v2_x/runtime/statemachine.py - whether an exception raised while creating the event of an
+    actionable element is contained to the owning flow;
   * colang/v2_x/library/guardrails.co - whether `run output rails` resets
     `$output_rails_in_progress` when the `output rails` flow fails.
 """
@@ -217,6 +219,30 @@ def v2_runtime_consts():
     return {"status": status, "message": msg}
 
 
+def v2_statemachine_consts():
+    """Is an exception raised while creating the event of an actionable element (invalid arguments,
+    e.g. an utterance of None) contained to the flow that owns the head?"""
+    tree = _parse("nemoguardrails/colang/v2_x/runtime/statemachine.py")
+    fn = _func(tree, "_generate_action_event_from_actionable_element")
+    tries = [n for n in ast.walk(fn) if isinstance(n, ast.Try)]
+    calls_gen = lambda nodes: any(isinstance(c, ast.Call) and isinstance(c.func, ast.Name) and c.func.id == "_generate_umim_event"
+                                  for n in nodes for c in ast.walk(n))
+    if not calls_gen([fn]):
+        raise TranslatorError("_generate_action_event_from_actionable_element does not call _generate_umim_event")
+    if not tries:
+        return {"contained": False}
+    if len(tries) != 1 or not calls_gen(tries[0].body):
+        raise TranslatorError("_generate_action_event_from_actionable_element: unexpected try structure")
+    hs = tries[0].handlers
+    if len(hs) != 1 or not (isinstance(hs[0].type, ast.Name) and hs[0].type.id == "Exception"):
+        raise TranslatorError("_generate_action_event_from_actionable_element: unexpected handlers")
+    aborts = any(isinstance(c, ast.Call) and isinstance(c.func, ast.Name) and c.func.id == "_abort_flow"
+                 for n in hs[0].body for c in ast.walk(n))
+    if _contains_raise(hs[0].body) or not aborts:
+        raise TranslatorError("_generate_action_event_from_actionable_element: handler re-raises or does not abort the flow")
+    return {"contained": True}
+
+
 def guardrails_consts():
     """Textual, fail-closed reading of `flow run output rails` of guardrails.co."""
     path = os.path.join(REPO, "nemoguardrails/colang/v2_x/library/guardrails.co")
@@ -261,6 +287,7 @@ def c03_consts():
     f1 = v1_flows_consts()
     r2 = v2_runtime_consts()
     g = guardrails_consts()
+    sm = v2_statemachine_consts()
     ev = "[" + "; ".join(f"({coq_str(t)}, {coq_str(p)})" for t, p in r1["events"]) + "]"
     lines = [
         HEADER,
@@ -279,6 +306,8 @@ def c03_consts():
         f"Definition v1_hide_marker : string := {coq_str(f1['hide_marker'])}.",
         "(* --- colang/v2_x/runtime/runtime.py --- *)",
         f"Definition v2_failed_status_test : string := {coq_str(r2['status'])}.",
+        "(* --- colang/v2_x/runtime/statemachine.py --- *)",
+        f"Definition v2_action_event_errors_contained : bool := {coq_bool(sm['contained'])}.",
         "(* --- colang/v2_x/library/guardrails.co --- *)",
         f"Definition v2_flag_reset_on_failure : bool := {coq_bool(g['reset_on_failure'])}.",
         "",
